@@ -9,8 +9,8 @@ LEVEL = "exploration"
 RULE = (
     "histories of operations on ONE cutplace.Cid object; operations (each over three small data sets that share key and "
     "value cells): read completely (yield mode + close; raise mode through cutplace.rows), read and abandon after k = 0, 1, "
-    "2 items (generator and reader closed, or everything just dropped), read without closing, reader closed without "
-    "iterating, validate with limit 0, validate, write rows without close, write and close, CutplaceApp.validate (the command line's per-file step) - 51 operations - on CIDs with "
+    "2 items (generator and reader closed, or everything just dropped), read without closing, two complete runs of one Reader, reader closed without "
+    "iterating, validate with limit 0, validate, write rows without close, write and close, CutplaceApp.validate (the command line's per-file step) - 54 operations - on CIDs with "
     "IsUnique, DistinctCount, or both. Oracle: history + model where the model is the implementation with fresh state: the "
     "outcome of the last operation of every history (items, rejections with row numbers, end-of-data result, written text, "
     "counters) must equal the outcome of the same operation on a freshly loaded CID. Quick: all histories of length <= 2 "
@@ -54,6 +54,8 @@ def operations():
         # an abandoned iteration whose generator stays referenced, and a read during which all such generators are dropped
         ops.append(("abandon-kept", d, 1))
         ops.append(("read-dropping-kept", d))
+        # one Reader used for two complete runs (read, close, rewind the stream, read, close)
+        ops.append(("read-twice-one-reader", d))
     return ops
 
 
@@ -159,6 +161,21 @@ def perform(cid, op):
                 out["end"] = None
             except errors.CutplaceError as e:
                 out["end"] = err(e)
+        elif kind == "read-twice-one-reader":
+            stream = source_for(d, text)
+            reader = validio.Reader(cid, stream, on_error="yield")
+            runs = []
+            for _ in range(2):
+                stream.seek(0)
+                items = [err(item) if isinstance(item, Exception) else item for item in reader.rows()]
+                try:
+                    reader.close()
+                    end = None
+                except errors.CutplaceError as e:
+                    end = err(e)
+                runs.append({"items": items, "end": end, "counters": [reader.accepted_rows_count, reader.rejected_rows_count]})
+            out["items"], out["end"], out["counters"] = runs[0]["items"], runs[0]["end"], runs[0]["counters"]
+            out["second_run"] = runs[1]
         elif kind == "close-without-rows":
             reader = validio.Reader(cid, source_for(d, text))
             try:
@@ -241,6 +258,13 @@ def check_history(ctx, cid_kind, history, compare_all=False):
     for index, op in enumerate(history):
         outcome = perform(cid, op)
         ctx.count("operations")
+        if "second_run" in outcome:
+            first_run = {k: outcome[k] for k in ("items", "end", "counters")}
+            ctx.count("second-runs-of-one-reader")
+            if outcome["second_run"] != first_run:
+                ctx.violation("C08:second-run-of-one-reader", case, "the second complete run of one Reader over the same data has another outcome than its first run",
+                              expected=first_run, observed=outcome["second_run"])
+                return
         if compare_all or index == len(history) - 1:
             ctx.count("outcomes.compared")
             want = fresh_outcome(cid_kind, op)
@@ -364,7 +388,7 @@ def run(ctx):
                 if ctx.mine(index):
                     check_history(ctx, cid_kind, history)
     ctx.exhaustive = True
-    ctx.note("exhaustive part: all histories of length <= %d over 51 operations x 4 CIDs; longer histories are sampled" % max_len)
+    ctx.note("exhaustive part: all histories of length <= %d over 54 operations x 4 CIDs; longer histories are sampled" % max_len)
     n = ctx.pick(2500, 20000)
     lo, hi = ctx.pick((3, 4), (5, 8))
     for i in range(n):
